@@ -171,9 +171,15 @@ class Bench:
         log = (p.stdout + p.stderr)
         if depth == 0 and not self.trivial_ok(opt):
             raise HarnessBuildError("llgo %s cannot build even `func main() { println(1) }`; output of the batch build:\n%s" % (opt, log[-3000:]))
+        crash = "LLVMRunPasses" in log and "SIGSEGV" in log
         if len(progs) == 1:
-            crash = "LLVMRunPasses" in log and "SIGSEGV" in log
             (self.toolchain_crashes if crash else self.build_failures).append((progs[0], npk, opt, log[-3000:] if not crash else log[:600]))
+            return []
+        if crash and self.ctx.tier == "quick" and depth >= 2:
+            # quick tier: an LLVM 14 optimiser crash is narrowed down to a quarter of the batch only (bounded extra builds);
+            # the programs of that quarter are recorded as not judged under this configuration
+            for P in progs:
+                self.toolchain_crashes.append((P, npk, opt, "one of %d programs built together crashes LLVMRunPasses (not bisected further in the quick tier)" % len(progs)))
             return []
         h = len(progs) // 2
         return self.llgo_parts(progs[:h], npk, opt, tag, depth + 1) + self.llgo_parts(progs[h:], npk, opt, tag, depth + 1)
@@ -188,6 +194,8 @@ class Bench:
     def run_all(self, binary, progs):
         def one(P):
             o, e, rc = run_prog(binary, input="%d\n" % P.idx, timeout=20)
+            if rc == "timeout":        # a loaded machine must not turn into a verdict: once more, alone, with a long limit
+                o, e, rc = run_prog(binary, input="%d\n" % P.idx, timeout=180)
             return norm_real(e, rc)
         with ThreadPoolExecutor(max_workers=8) as ex:
             return dict(zip([P.idx for P in progs], ex.map(one, progs)))
